@@ -54,6 +54,9 @@ type c01FileBackend struct {
 	log   doubles.Log
 	mu    sync.Mutex
 	owner map[string]string // lock file -> instance
+	// the lock file a dead holder left behind (leaveLockFile): not a lock anybody holds as long as it is untouched
+	deadName    string
+	deadContent []byte
 }
 
 func c01NewFileBackend() (*c01FileBackend, error) {
@@ -84,6 +87,7 @@ func (b *c01FileBackend) leaveLockFile(name, kind string) error {
 	default:
 		return fmt.Errorf("unknown crash_lock kind %q", kind)
 	}
+	b.deadName, b.deadContent = filepath.Base(p), content
 	return os.WriteFile(p, content, 0o644)
 }
 func (b *c01FileBackend) GetLog() *doubles.Log { return &b.log }
@@ -119,6 +123,11 @@ func (b *c01FileBackend) HeldLocks() []string {
 	var out []string
 	for _, e := range ents {
 		if strings.HasSuffix(e.Name(), ".lock") {
+			if e.Name() == b.deadName {
+				if c, err := os.ReadFile(filepath.Join(b.dir, "locks", e.Name())); err == nil && string(c) == string(b.deadContent) {
+					continue // nobody asked for this lock: the dead holder's file is still lying there
+				}
+			}
 			out = append(out, e.Name())
 		}
 	}
